@@ -1,3 +1,3 @@
 SPECIFICATION Spec
-CONSTANTS Pfx = {"A", "B"} MaxHops = 2 MaxCid = 2 QCap = 100 MaxDepth = 5 LeakDetached = FALSE AnyState = FALSE MaxInst = 2 Lifecycle = FALSE UnloadClears = FALSE CandInit = {TRUE, FALSE} CloseWays = {"close", "closeR", "remove", "removeR", "removeNow", "removeD"} ReasonDecides = TRUE ReadyInit = FALSE
+CONSTANTS Pfx = {"A", "B"} MaxHops = 2 MaxCid = 2 QCap = 100 MaxDepth = 5 LeakDetached = FALSE AnyState = FALSE MaxInst = 2 Lifecycle = FALSE UnloadClears = FALSE CandInit = {TRUE, FALSE} CloseWays = {"close", "closeR", "remove", "removeR", "removeNow", "removeD"} ReasonDecides = TRUE ReadyInit = FALSE Expiry = FALSE
 INVARIANT TunnelledOnlyOverReadyRightCircuit
